@@ -43,7 +43,7 @@ func (propC08) Gen(seed uint64, tier string) *Case {
 	if r.Chance(0.05) {
 		cfg.EqualKeys = 0.3 // known-finding trigger (equal-text key order follows map order)
 	}
-	g := &Gen{r: r, cfg: cfg}
+	g := &Gen{r: r, cfg: cfg, lits: true}
 	g.late = r.Chance(0.2)
 	g.universe()
 	rec := &Recipe{Paths: g.paths}
@@ -196,7 +196,7 @@ func (propC08) Gen(seed uint64, tier string) *Case {
 
 func stateChanging(k string) bool {
 	switch k {
-	case "add", "add_to_group", "addfrag", "addfrag_chain", "fill", "cgo", "hint_name", "hint_names", "hint_names_shared", "hint_names_alt", "hint_alias", "anon", "prefix", "noformat", "pkgcomment", "header", "canonical":
+	case "add", "add_to_group", "addfrag", "addfrag_chain", "line", "line_comment", "fill", "cgo", "hint_name", "hint_names", "hint_names_shared", "hint_names_alt", "hint_alias", "anon", "prefix", "noformat", "pkgcomment", "header", "canonical":
 		return true
 	}
 	return false
